@@ -112,7 +112,7 @@ class FuncInfo:
 
     @property
     def self_name(self) -> Optional[str]:
-        if self.cls is None or self.is_staticmethod:
+        if self.cls is None or self.is_staticmethod or self.outer is not None:
             return None
         ps = self.node.args.posonlyargs + self.node.args.args
         return ps[0].arg if ps else None
